@@ -619,6 +619,31 @@ func runC12(r *vf.Runner) {
 			r.Case(c, func(t *vf.T) { runC12case(t, c) })
 		}
 	}
+	// one use of a result must not change what later uses of the same result observe: every kind of
+	// first use (every redistribution, to one and to several shards, and a pipelined one) followed by
+	// a pipelined and by redistributing later uses of the same result
+	firsts := []PNode{{Op: "reshard", In: []int{0}, Shards: 1}, {Op: "reshard", In: []int{0}, Shards: 2}, {Op: "reshard", In: []int{0}, Shards: 5},
+		{Op: "reduce", In: []int{0}, Fold: "sum"}, {Op: "reshuffle", In: []int{0}}, {Op: "cogroup", In: []int{0, 0}}, {Op: "fold", In: []int{0}, Salt: 4},
+		{Op: "repartition", In: []int{0}, Salt: 4}, {Op: "map", In: []int{0}, Out: []string{"int", "int64"}, Src: []int{0, 1}, Salt: 4}}
+	laters := []PNode{{Op: "map", In: []int{0}, Out: []string{"int", "int64"}, Src: []int{0, 1}, Salt: 6}, {Op: "reduce", In: []int{0}, Fold: "max"},
+		{Op: "reshard", In: []int{0}, Shards: 2}, {Op: "cogroup", In: []int{0, 0}}, {Op: "reshard", In: []int{0}, Shards: 1}}
+	for fi, first := range firsts {
+		for li, later := range laters {
+			for ci, conf := range []sessConf{localP4, bmk} {
+				if r.Quick() && (fi+li+ci)%2 == 1 && first.Shards != 1 {
+					continue
+				}
+				base := Spec{Nodes: []PNode{{Op: "const", Shards: 3, Rows: 129, Out: []string{"int", "int64"}, Salt: 3, Mod: 10}, {Op: "filter", In: []int{0}, P: 5, Salt: 2}}}
+				d1 := Spec{Nodes: []PNode{{Op: "arg", Arg: 0}, first}}
+				d2 := Spec{Nodes: []PNode{{Op: "arg", Arg: 0}, later}}
+				c := c12case{Conf: conf, Base: base, Ops: []c12op{{Op: "derive", R: 0, Spec: &d1}, {Op: "derive", R: 0, Spec: &d2}, {Op: "scan", R: 0}, {Op: "derive", R: 0, Spec: &d1}, {Op: "scan", R: 2}}}
+				r.Case(c, func(t *vf.T) {
+					runC12case(t, c)
+					t.Count("use_after_use_histories", 1)
+				})
+			}
+		}
+	}
 	for i := 0; i < nl+nb; i++ {
 		conf := localP4
 		if i >= nl {
